@@ -45,6 +45,9 @@ def build(rep):
         open(os.path.join(VERIF, 'kani/c04emit/Cargo.toml.in')).read().replace('@REPO@', REPO))
     shutil.copy(os.path.join(REPO, 'Cargo.lock'), os.path.join(d, 'Cargo.lock'))
     env = offline_env({'CARGO_TARGET_DIR': os.path.join(BUILD, 'native-target')})
+    exe = os.path.join(BUILD, 'native-target/debug/c04-emit')
+    if os.path.exists(exe):
+        os.remove(exe)
     rc, out, err, secs, to = run(['cargo', 'build', '--offline', '-q'], cwd=d, env=env, timeout=1800)
     if rc != 0:
         raise Undecided('emit probe does not build against /repo (an emitter changed shape): ' + err[-1500:])
